@@ -20,6 +20,21 @@ from mmverif.engine import specs as specmod
 from mmverif.engine.values import *  # pylint: disable=wildcard-import
 
 
+def _has_quantifier(t):
+  stack = [t]
+  seen = set()
+  while stack:
+    x = stack.pop()
+    if x.get_id() in seen:
+      continue
+    seen.add(x.get_id())
+    if z3.is_quantifier(x):
+      return True
+    if z3.is_app(x):
+      stack.extend(x.children())
+  return False
+
+
 def to_term(x):
   """z3 Bool of a clause result / value / Python bool."""
   if isinstance(x, bool):
@@ -212,14 +227,17 @@ class Ctx:
     self.counters = {}
     self.objects = {}
     self.next_oid = 1
-    self.solver = z3.Solver()
-    self.solver.set('timeout', 400)
+    self.solver = z3.Solver()       # quantifier-free part of the pc only
+    self.solver.set('timeout', 300)
+    self.known = {}                 # ast id of an assumed literal -> bool
+    self.pc_ids = set()
     self.spec_consts = {}
     self.old_heap = None
     self.entry_vals = None
     self.cur_line = 0
     self.cur_func = unit.contract.qualname if unit else ''
     self.depth = 0
+    self.memo = {}
 
   # -- symbols ----------------------------------------------------------
   def sym(self, base):
@@ -242,12 +260,31 @@ class Ctx:
     t = z3.simplify(to_term(t))
     if z3.is_true(t):
       return
+    if z3.is_and(t):
+      for c in t.children():
+        self.assume(c)
+      return
+    if t.get_id() in self.pc_ids:
+      return
+    self.pc_ids.add(t.get_id())
     self.pc.append(t)
-    self.solver.add(t)
+    if z3.is_not(t):
+      self.known[t.arg(0).get_id()] = False
+    else:
+      self.known[t.get_id()] = True
+    if not _has_quantifier(t):
+      self.solver.add(t)
 
   def feasible(self, cond):
     r = self.solver.check(cond)
     return r != z3.unsat
+
+  def lookup_known(self, cond):
+    if cond.get_id() in self.known:
+      return self.known[cond.get_id()]
+    if z3.is_not(cond) and cond.arg(0).get_id() in self.known:
+      return not self.known[cond.arg(0).get_id()]
+    return None
 
   def branch(self, cond):
     cond = z3.simplify(to_term(cond))
@@ -255,6 +292,9 @@ class Ctx:
       return True
     if z3.is_false(cond):
       return False
+    k = self.lookup_known(cond)
+    if k is not None:
+      return k
     idx = len(self.decisions)
     if idx < len(self.prefix):
       d = self.prefix[idx]
@@ -294,6 +334,12 @@ class Ctx:
     base = '%s/%s:%s@L%d' % (self.cur_func, kind, label, self.cur_line)
     name = unit.unique(base)
     hyps = list(self.pc) + list(extra_hyps)
+    if not z3.is_true(g):
+      if z3.is_and(g):
+        if all(c.get_id() in self.pc_ids for c in g.children()):
+          g = z3.BoolVal(True)
+      elif g.get_id() in self.pc_ids:
+        g = z3.BoolVal(True)
     if z3.is_true(g):
       unit.obligations.append(Obligation(name, label, kind, props,
                                          self.cur_func, self.cur_line, None,
@@ -303,8 +349,10 @@ class Ctx:
     s = z3.Solver()
     for h in hyps:
       s.add(h)
+    marker = z3.Bool('__grp_lemma')
     for h in lem:
-      s.add(h)
+      s.add(z3.Implies(marker, h))
+    s.add(marker)
     s.add(z3.Not(g))
     text = s.to_smt2()
     unit.obligations.append(Obligation(
@@ -514,7 +562,8 @@ class Exec:
     dotted = modname + '.' + attr
     if dotted in self.world.lib:
       return VCallable('lib', dotted)
-    if any(k.startswith(dotted + '.') for k in self.world.lib):
+    if any(isinstance(k, str) and k.startswith(dotted + '.')
+           for k in self.world.lib):
       return VModule(dotted)
     self.unsupported(node, 'library name %s has no contract' % dotted)
 
@@ -596,6 +645,8 @@ class Exec:
       h = self.world.attr_handlers.get((recv.okind, attr))
       if h is not None:
         return h(self, recv, node)
+    if hasattr(recv, 'py_getattr'):
+      return recv.py_getattr(self, attr, node)
     key = (recv.kind if not isinstance(recv, VOpaque) else
            'opaque:' + recv.okind, attr)
     if key in self.world.vmethods:
@@ -764,6 +815,8 @@ class Exec:
     return result
 
   def compare(self, op, a, b, node):
+    if hasattr(a, 'py_compare') and not isinstance(op, (ast.Is, ast.IsNot)):
+      return a.py_compare(self, op, b, node)
     if isinstance(op, (ast.Is, ast.IsNot)):
       if isinstance(b, VNone):
         t = is_none_term(a)
@@ -865,6 +918,8 @@ class Exec:
     return self.index_value(recv, idx, node)
 
   def index_value(self, recv, idx, node):
+    if hasattr(recv, 'py_getitem'):
+      return recv.py_getitem(self, idx, node)
     if isinstance(recv, VTuple):
       if isinstance(idx, VInt) and z3.is_int_value(z3.simplify(idx.t)):
         i = z3.simplify(idx.t).as_long()
@@ -969,6 +1024,8 @@ class Exec:
   def call(self, fn, args, kwargs, node, env=None):
     if isinstance(fn, VOpt):
       fn = self.need_not_none(fn, node, 'called object')
+    if hasattr(fn, 'py_call'):
+      return fn.py_call(self, args, kwargs, node)
     if not isinstance(fn, VCallable):
       self.unsupported(node, 'call of %s' % fn.kind)
     w = fn.what
@@ -1149,7 +1206,21 @@ class Exec:
       cond = to_term(cl.fn(ns))
       if ctx.branch(cond):
         raise RaiseSig(exc, 'from %s' % callee)
+    mkey = None
+    if contract.memo:
+      mkey = (callee,) + tuple(
+          (k, v.oid if isinstance(v, VObj) else str(v.flatten()))
+          for k, v in sorted(bound.items()))
+      m = ctx.memo.get(mkey)
+      if m is not None and all(
+          ctx.objects[oid].fields.get(f) is v
+          for (oid, f), v in m['reads'].items()):
+        for (oid, f), v in m['writes'].items():
+          ctx.objects[oid].fields[f] = v
+        return m['result']
     # frame
+    before = {(oid, f): v for oid, rec in ctx.objects.items()
+              for f, v in rec.fields.items()}
     self.havoc_frame(contract, bound, ns)
     result = NONE
     if contract.result is not None:
@@ -1159,7 +1230,50 @@ class Exec:
     post_ns = NS(ctx, vals, heap=None, old=old_ns)
     for cl in contract.ensures:
       ctx.assume(cl.fn(post_ns))
+    if contract.kind == 'generator':
+      from mmverif.engine import loops as loopmod
+      eshape = contract.elem
+      yields = contract.yields
+      base_vals = dict(bound)
+      n = z3.Int(ctx.sym('n_' + callee.split('.')[-1]))
+      ctx.assume(n >= 0)
+
+      def elem(c, k):
+        e = eshape.fresh(c, 'y_' + callee.split('.')[-1])
+        vals2 = dict(base_vals)
+        vals2['elem'] = e
+        ns2 = NS(c, vals2, heap=None, old=old_ns)
+        for cl in yields:
+          c.assume(cl.fn(ns2))
+        return e
+
+      return loopmod.VIter(n, elem)
+    if mkey is not None:
+      writes = {k: v for k, v in ((
+          (oid, f), v) for oid, rec in ctx.objects.items()
+                                  for f, v in rec.fields.items())
+                if before.get(k) is not v}
+      reads = {k: v for k, v in before.items() if k not in writes}
+      if contract.reads is not None:
+        reads = {k: v for k, v in reads.items()
+                 if '%s.%s' % (ctx.objects[k[0]].cls, k[1]) in contract.reads}
+      ctx.memo[mkey] = {'result': result, 'writes': writes, 'reads': reads}
     return result
+
+  def ghost_call(self, modname, qualname, self_obj, restore=True):
+    """Evaluate a memoised contract for specification purposes: the result
+    is the value every real call will return; the heap is left untouched."""
+    ctx = self.ctx
+    before = {(oid, f): v for oid, rec in ctx.objects.items()
+              for f, v in rec.fields.items()}
+    node = ast.Pass(lineno=ctx.cur_line)
+    n_ob = len(ctx.unit.obligations)
+    r = self.call_repo(modname, qualname, self_obj, [], {}, node)
+    del ctx.unit.obligations[n_ob:]      # ghost: no obligations of its own
+    if restore:
+      for (oid, f), v in before.items():
+        ctx.objects[oid].fields[f] = v
+    return r
 
   def havoc_frame(self, contract, bound, ns):
     ctx = self.ctx
